@@ -446,7 +446,10 @@ def Client.setCons (c : Client) (o : Nat) (x : Cons) : Client := { c with cons :
 /-- the selection loop of `doCheck` (`next()` round robin, lazy removal of completed streams, stop
     after a full circle).  Fixed code: when the stream remembered as `first` is removed, a new circle
     starts (before the fix the loop never ended in that case).
-    Returns streams, rrIndex, the chosen stream, and whether the fuel ran out (`spin`). -/
+    Returns streams, rrIndex, the chosen stream, and whether the fuel ran out (`spin`).
+    Fuel: with L streams the fixed loop makes fewer than (L+1)² iterations (every iteration either
+    returns, removes a stream, fixes `first`, or moves one step closer to `first`; a removal can push
+    `first` at most one full circle away), so `doCheck` passes (L+1)²+1. -/
 def pick (cons : List Cons) : Nat → List Nat → Nat → Option Nat → List Nat × Nat × Option Nat × Bool
   | 0, streams, rr, _ => (streams, rr, none, true)
   | fuel + 1, streams, rr, first =>
@@ -472,7 +475,7 @@ def Client.doCheck : Nat → Client → Client × List (Nat × Key)
   | fuel + 1, c =>
     if c.outstanding ≥ window then (c, [])
     else
-      let r := pick c.cons (2 * c.streams.length + 2) c.streams c.rrIndex none
+      let r := pick c.cons ((c.streams.length + 1) * (c.streams.length + 1) + 1) c.streams c.rrIndex none
       let c := { c with streams := r.1, rrIndex := r.2.1, spin := c.spin || r.2.2.2 }
       match r.2.2.1 with
       | none => (c, [])
